@@ -72,6 +72,19 @@ func (w *World) VerifyFunc(c *Contract, prop string) (*Unit, error) {
 						earr, esort := u.elemArr(sl.Elem())
 						fs.locs = append(fs.locs, &Loc{Arr: earr, Sort: esort, Key: "(sl.base " + av.T + ")", Typ: sl.Elem()})
 					}
+				case strings.HasPrefix(item, `\mapof(`):
+					// the entries of a map (its header is a reference; the contents live in dom/val rows)
+					av, err := env.eval(strings.TrimSuffix(strings.TrimPrefix(item, `\mapof(`), ")"))
+					if err != nil {
+						w.fail("%s:%d: assigns: %v", cl.File, cl.Line, err)
+						continue
+					}
+					if mt, ok := av.Typ.Underlying().(*types.Map); ok {
+						dom, val := u.mapArrs(mt)
+						fs.locs = append(fs.locs, &Loc{Arr: dom, Key: av.T, Typ: mt}, &Loc{Arr: val, Key: av.T, Typ: mt})
+					} else {
+						w.fail("%s:%d: assigns: \\mapof of non-map", cl.File, cl.Line)
+					}
 				case strings.HasPrefix(item, `\after(`):
 					av, err := env.eval(strings.TrimSuffix(strings.TrimPrefix(item, `\after(`), ")"))
 					if err != nil {
